@@ -41,6 +41,20 @@ fn main() {
         props::c18::dump_corpus(&args[2]);
         return;
     }
+    if id == "c18-import" {
+        // turn a libFuzzer artifact (raw bytes) into a replay file of the C18 check
+        let bytes = std::fs::read(&args[2]).unwrap();
+        let case = props::c18::Case { base: props::c18::Base::Noise(bytes), muts: vec![] };
+        let text = case.text();
+        let root = std::env::var("VERIF_ROOT").unwrap_or_else(|_| "/verif".into());
+        let dir = format!("{root}/replays/C18");
+        std::fs::create_dir_all(&dir).unwrap();
+        let path = format!("{dir}/fuzz-{:016x}.json", runner::fnv(&text));
+        let doc = serde_json::json!({"property": "C18", "signature": "found-by-libfuzzer-target", "detail": text.chars().take(1500).collect::<String>(), "case": case});
+        std::fs::write(&path, serde_json::to_string_pretty(&doc).unwrap()).unwrap();
+        println!("VIOLATION property=C18 replay={path}");
+        return;
+    }
     if id == "c18-worker" {
         props::c18::worker_main();
         return;
